@@ -156,6 +156,46 @@ void h_tGswNoiselessTrivial(void) {
 }
 #endif
 
+#ifdef H_TLWEROW
+/* TLWE-level wrappers of the external product: every one of the k+1 polynomials is handled exactly once, slot i with slot i
+ * (transforms, clear, multiply-accumulate in both domains); the variance annotation of the coefficient-domain multiply-accumulate */
+static int n_op; static const void *r_base, *s_base, *p_arg; enum { OP_IFFT = 1, OP_FFT, OP_CLR, OP_FMUL, OP_CMUL }; static int op_kind;
+static void step(int kind, const void *r, const void *s, const void *p, size_t rsz, size_t ssz) {
+    if (kind != op_kind || (const char *)r != (const char *)r_base + (size_t)n_op * rsz || (s_base && (const char *)s != (const char *)s_base + (size_t)n_op * ssz) || p != p_arg) bad++; n_op++; }
+void TorusPolynomial_ifft(LagrangeHalfCPolynomial *result, const TorusPolynomial *p) { step(OP_IFFT, result, p, 0, sizeof(LagrangeHalfCPolynomial), sizeof(TorusPolynomial)); }
+void TorusPolynomial_fft(TorusPolynomial *result, const LagrangeHalfCPolynomial *p) { step(OP_FFT, result, p, 0, sizeof(TorusPolynomial), sizeof(LagrangeHalfCPolynomial)); }
+void LagrangeHalfCPolynomialClear(LagrangeHalfCPolynomial *result) { step(OP_CLR, result, 0, 0, sizeof(LagrangeHalfCPolynomial), 0); }
+void LagrangeHalfCPolynomialAddMul(LagrangeHalfCPolynomial *accum, const LagrangeHalfCPolynomial *a, const LagrangeHalfCPolynomial *b) { step(OP_FMUL, accum, b, a, sizeof(LagrangeHalfCPolynomial), sizeof(LagrangeHalfCPolynomial)); }
+void torusPolynomialAddMulR(TorusPolynomial *result, const IntPolynomial *poly1, const TorusPolynomial *poly2) { step(OP_CMUL, result, poly2, poly1, sizeof(TorusPolynomial), sizeof(TorusPolynomial)); }
+#include "extracted.inc"     /* includes the REAL intPolynomialNormSq2 (32-bit wrapping sum of squares) */
+#define BEGIN(kind, r, s, p) do { op_kind = (kind); r_base = (r); s_base = (s); p_arg = (p); n_op = 0; bad = 0; } while (0)
+void h_tlwe_rowwise(void) {
+    TLweParams tp; *(int32_t *)&tp.k = VERIF_K;
+    static TorusPolynomial c1[VERIF_K + 1], c2[VERIF_K + 1]; static LagrangeHalfCPolynomial f1[VERIF_K + 1], f2[VERIF_K + 1];
+    TLweSample cs, cd; cs.a = c1; cs.b = c1 + VERIF_K; cd.a = c2; cd.b = c2 + VERIF_K; TLweSampleFFT fs, fd; fs.a = f1; fs.b = f1 + VERIF_K; fd.a = f2; fd.b = f2 + VERIF_K;
+    double v; __CPROVER_assume(v >= 0.0 && v <= 1.0); cs.current_variance = v; fs.current_variance = v;
+    BEGIN(OP_IFFT, f2, c1, 0); tLweToFFTConvert(&fd, &cs, &tp);
+    __CPROVER_assert(n_op == VERIF_K + 1 && bad == 0 && fd.current_variance == v, "to the FFT domain: polynomial i into slot i, each once; variance annotation carried over");
+    BEGIN(OP_FFT, c2, f1, 0); tLweFromFFTConvert(&cd, &fs, &tp);
+    __CPROVER_assert(n_op == VERIF_K + 1 && bad == 0 && cd.current_variance == v, "back from the FFT domain: polynomial i into slot i, each once; variance annotation carried over");
+    BEGIN(OP_CLR, f2, 0, 0); tLweFFTClear(&fd, &tp);
+    __CPROVER_assert(n_op == VERIF_K + 1 && bad == 0 && fd.current_variance == 0.0, "FFT-domain clear: every polynomial once, variance 0");
+    static LagrangeHalfCPolynomial fp; BEGIN(OP_FMUL, f2, f1, &fp); tLweFFTAddMulRTo(&fd, &fp, &fs, &tp);
+    __CPROVER_assert(n_op == VERIF_K + 1 && bad == 0, "FFT-domain multiply-accumulate: slot i += p * slot i, each once, the same p");
+    /* the IEEE product of two symbolic doubles is not decided by any installed back end (DESIGN 8.2): concrete digit polynomials and sample variance.
+     * Second polynomial: non-zero, but its 32-bit sum of squares wraps to 0 with the real norm function -- every polynomial must still be accumulated */
+    static int32_t pc[4] = {1, 2, 0, 0}; IntPolynomial ip; *(int32_t *)&ip.N = 4; ip.coefs = pc;
+    double v0; __CPROVER_assume(v0 >= 0.0 && v0 <= 1.0); cd.current_variance = v0; cs.current_variance = 0x1p-20;
+    BEGIN(OP_CMUL, c2, c1, &ip); tLweAddMulRTo(&cd, &ip, &cs, &tp);
+    __CPROVER_assert(n_op == VERIF_K + 1 && bad == 0, "coefficient-domain multiply-accumulate: polynomial i += p * polynomial i, each once, the same p");
+    __CPROVER_assert(cd.current_variance == v0 + 5.0 * 0x1p-20, "variance annotation += ||p||_2^2 * variance of the sample (instance: p = 1 + 2X, variance 2^-20)");
+    static int32_t pw[4] = {-32768, -32768, -32768, -32768}; IntPolynomial iw; *(int32_t *)&iw.N = 4; iw.coefs = pw;
+    BEGIN(OP_CMUL, c2, c1, &iw); tLweAddMulRTo(&cd, &iw, &cs, &tp);
+    __CPROVER_assert(n_op == VERIF_K + 1 && bad == 0, "a non-zero digit polynomial is multiply-accumulated whatever its norm annotation evaluates to (4 coefficients -2^15: the 32-bit sum of squares is 0)");
+    VERIF_REACH();
+}
+#endif
+
 #ifdef H_CONVERT
 static int n_conv; static const TGswSample *c_src; static TGswSampleFFT *c_dst; static const TLweParams *c_tp;
 void tLweToFFTConvert(TLweSampleFFT *result, const TLweSample *source, const TLweParams *params) { if (result != c_dst->all_samples + n_conv || source != c_src->all_sample + n_conv || params != c_tp) bad++; n_conv++; }
